@@ -656,7 +656,7 @@ def _sum_over(poly, var, lo, hi):
 from fractions import Fraction as Fr
 
 
-def production_cost(items, costs, pb, hier):
+def production_cost(items, costs, pb, hier, funcs=None):
     """symbolic cost of a production in the tables' cost model: a (Write_Forward k, Forward [k-1,k],
     Backward [k,k-1], Discard_Forward k) quartet costs ub; other operations cost what
     Operation.cost says; loops are summed in closed form.  -> (poly | None, reason)"""
@@ -729,13 +729,15 @@ def production_cost(items, costs, pb, hier):
                 total = padd(total, pmul(c2, padd(padd(hi, lo, -1), pconst(1), -1)))
             i += 1
             continue
-        if it.kind == "op" and it.type.startswith("Write_Forward") and i + 3 < n + 0 and i + 3 <= n - 1 + 0 or \
-                (it.kind == "op" and it.type.startswith("Write_Forward") and i + 3 < n):
-            q = items[i:i + 4]
-            if all(not isinstance(x, tuple) and x.kind == "op" for x in q) and q[1].type == "Forward" and q[2].type == "Backward" \
-                    and q[3].type.startswith("Discard_Forward"):
+        if it.kind == "op" and it.type.startswith("Write_Forward") and i + 2 < n:
+            # (Write_Forward k, Forward [k-1, k], Backward [k, k-1]) is one reversed step and costs ub in the tables' cost
+            # model; the Discard_Forward that normally follows is free and is consumed with it when present
+            q = items[i:i + 3]
+            if all(not isinstance(x, tuple) and x.kind == "op" for x in q) and q[1].type == "Forward" and q[2].type == "Backward":
                 total = padd(total, patom("ub"))
-                i += 4
+                i += 3
+                if i < n and not isinstance(items[i], tuple) and items[i].kind == "op" and items[i].type.startswith("Discard_Forward"):
+                    i += 1
                 continue
         if it.kind == "op":
             c = costs.get(it.type)
@@ -751,6 +753,16 @@ def production_cost(items, costs, pb, hier):
                 total = padd(total, patom(f"{vec}[{pstr(pb.poly(it.idx.elts[0]))}]"))
             i += 1
             continue
+        if funcs is not None and it.kind == "call" and it.callee in CALL_TABLE and it.callee in funcs and it.shift is None:
+            # an inserted sub-sequence costs what its table says: hrevolve_aux(l, K, cmem) -> optp[K][l][cmem]
+            tab = CALL_TABLE[it.callee]
+            params = [a.arg for a in funcs[it.callee][1].args.args]
+            bound = dict(zip(params, it.call.args))
+            if all(p_ in bound for p_ in tab[1]):
+                idx = [pstr(pb.poly(bound[p_])) for p_ in tab[1]]
+                total = padd(total, patom(tab[0] + "".join(f"[{x}]" for x in idx)))
+                i += 1
+                continue
         return None, "sub-sequence call in a base production"
     return total, ""
 
@@ -892,3 +904,140 @@ def base_rules(chk, ctx):
             chk.decide("C07.BASE", cons, True if ok else (False if cost is not None else None),
                        f"row 0 of the H-Revolve tables is {[pstr(dict(v)) for v in vals]}; the l == 0 production of {bname} costs "
                        f"{pstr(cost) if cost is not None else why}", rel=rel, node=row0[0])
+        # row 1 at level 0: optp[0][1][m] is the cost of hrevolve_aux(l = 1, K = 0, cmem = m >= 1), opt[0][1][m] that of
+        # hrevolve_recurse(l = 1, K = 0, cmem = m >= 1)
+        import copy as _copy
+        row1 = {}
+        for s_ in ast.walk(fn):
+            if isinstance(s_, ast.Assign) and isinstance(s_.targets[0], ast.Subscript) and isinstance(s_.targets[0].value, ast.Subscript) \
+                    and isinstance(s_.targets[0].value.slice, ast.Constant) and s_.targets[0].value.slice.value == 1 \
+                    and isinstance(s_.targets[0].value.value, ast.Subscript) and isinstance(s_.targets[0].value.value.value, ast.Name):
+                row1.setdefault(s_.targets[0].value.value.value.id, []).append(s_)
+
+        class _Sub(ast.NodeTransformer):
+            def __init__(self, tgt, val):
+                self.t, self.v = ast.unparse(tgt), val
+
+            def visit_Subscript(self, node):
+                if ast.unparse(node) == self.t:
+                    return _copy.deepcopy(self.v)
+                return self.generic_visit(node)
+        params_of = lambda b_: [a.arg for a in live.funcs[b_][1].args.args]
+        for tab_, bname in (("optp", "hrevolve_aux"), ("opt", "hrevolve_recurse")):
+            cons = f"{rel[:-3].replace('/', '.')}.get_hopt_table#row1<->{bname}"
+            sts = row1.get(tab_, [])
+            if len(sts) != 1 or bname not in g.builders or not ({"l", "K", "cmem"} <= set(params_of(bname))):
+                chk.decide("C07.BASE", cons, None, f"row 1 store of {tab_} / parameters of {bname} not found", rel=rel, node=fn)
+                continue
+            expr = sts[0].value
+            for other in row1.get("optp", []) if tab_ == "opt" else []:
+                expr = _Sub(other.targets[0], other.value).visit(_copy.deepcopy(expr))
+            # the table's level / slot loop variables at the sample cell: level 0
+            lvl = sts[0].targets[0].value.value.slice
+            ren0 = {lvl.id: 0} if isinstance(lvl, ast.Name) else {}
+            pbe = builder("get_hopt_table")
+            pbe = PolyBuilder(pbe.atom_fn, dict(pbe.rename, **ren0))
+            expect = pbe.poly(expr)
+            cell = {"l": 1, "K": 0, "cmem": 5}
+            prods = []
+            for conds, items in production_paths(g, bname):
+                if all(ev_test(node.test, cell) in (None, val) for node, val in conds):
+                    prods.append((conds, items))
+            # identical tests are correlated: drop paths that take one test both ways
+            def consistent(conds):
+                seen_ = {}
+                for node, val in conds:
+                    k_ = ast.dump(node.test)
+                    if seen_.setdefault(k_, val) != val:
+                        return False
+                return True
+            prods = [p_ for p_ in prods if consistent(p_[0])]
+
+            def cost_sign(conds):
+                """False if the path takes a test `A < B` although A - B is a sum of costs with non-negative coefficients at
+                K = 0 (costs are non-negative), or refuses a test `A >= B` of that kind"""
+                pbk = builder("get_hopt_table")
+                pbk = PolyBuilder(pbk.atom_fn, dict(pbk.rename, l=1, K=0, k=0))
+                for node, val in conds:
+                    t = node.test
+                    if isinstance(t, ast.Compare) and len(t.ops) == 1 and isinstance(t.ops[0], (ast.Lt, ast.GtE)) \
+                            and not any(isinstance(x, ast.Call) for x in ast.walk(t)):
+                        try:
+                            d_ = pbk.poly(ast.BinOp(t.left, ast.Sub(), t.comparators[0]))
+                        except Exception:
+                            continue
+                        if d_ and all(c_ > 0 for c_ in d_.values()) and all(m_ for m_ in d_):
+                            truth_ = isinstance(t.ops[0], ast.GtE)     # A - B >= 0 holds
+                            if val != truth_:
+                                return False
+                return True
+            prods = [p_ for p_ in prods if cost_sign(p_[0])]
+            costs_ = []
+            for conds, items in prods:
+                pbb = builder("get_hopt_table")
+                pbb = PolyBuilder(pbb.atom_fn, dict(pbb.rename, l=1, K=0, k=0))
+                c_, why = production_cost(items, costs, pbb, True)
+                costs_.append(c_)
+            if not prods or any(c_ is None for c_ in costs_):
+                chk.decide("C07.BASE", cons, None, f"{len(prods)} productions of {bname} on the cell {cell} / cost not computable",
+                           rel=rel, node=sts[0])
+                continue
+            ok = all(pkey(c_) == pkey(expect) for c_ in costs_)
+            chk.decide("C07.BASE", cons, True if ok else False,
+                       f"row 1, level 0 of {tab_} is `{' '.join(ast.unparse(sts[0].value).split())}` = {pstr(expect)}; the l == 1 production(s) of "
+                       f"{bname} with K = 0 cost {[pstr(c_) for c_ in costs_]}", rel=rel, node=sts[0])
+        # one slot at level 0: optp[0][l][1] is the cost of hrevolve_aux(l >= 2, K = 0, cmem = 1)
+        one = [s_ for s_ in ast.walk(fn) if isinstance(s_, ast.Assign) and isinstance(s_.targets[0], ast.Subscript)
+               and " ".join(ast.unparse(s_.targets[0]).split()).startswith("optp[0][") and isinstance(s_.targets[0].slice, ast.Constant)
+               and s_.targets[0].slice.value == 1 and isinstance(s_.targets[0].value.slice, ast.Name)]
+        bname = "hrevolve_aux"
+        cons = f"{rel[:-3].replace('/', '.')}.get_hopt_table#one-slot<->{bname}"
+        if len(one) == 1 and bname in g.builders and {"l", "K", "cmem"} <= set(params_of(bname)):
+            lvar = one[0].targets[0].value.slice.id
+            pbe = builder("get_hopt_table")
+            pbe = PolyBuilder(pbe.atom_fn, dict(pbe.rename, **{lvar: "l"}))
+            expect = pbe.poly(one[0].value)
+            cell = {"l": 7, "K": 0, "cmem": 1}
+            prods = [(c_, it_) for c_, it_ in production_paths(g, bname)
+                     if all(ev_test(node.test, cell) in (None, val) for node, val in c_)]
+            costs_ = []
+            for conds, items in prods:
+                pbb = builder("get_hopt_table")
+                pbb = PolyBuilder(pbb.atom_fn, dict(pbb.rename, K=0, k=0, cmem=1, m=1))
+                c_, why = production_cost(items, costs, pbb, True)
+                costs_.append(c_)
+            if len(prods) != 1 or costs_[0] is None:
+                chk.decide("C07.BASE", cons, None, f"{len(prods)} productions of {bname} on the cell {cell} / cost not computable",
+                           rel=rel, node=one[0])
+            else:
+                ok = pkey(costs_[0]) == pkey(expect)
+                chk.decide("C07.BASE", cons, True if ok else False,
+                           f"one-slot entries of optp at level 0 are `{' '.join(ast.unparse(one[0].value).split())}` = {pstr(expect)}; the "
+                           f"production of {bname} with K = 0, cmem = 1 costs {pstr(costs_[0])}", rel=rel, node=one[0])
+        one_o = [s_ for s_ in ast.walk(fn) if isinstance(s_, ast.Assign) and isinstance(s_.targets[0], ast.Subscript)
+                 and " ".join(ast.unparse(s_.targets[0]).split()).startswith("opt[0][") and isinstance(s_.targets[0].slice, ast.Constant)
+                 and s_.targets[0].slice.value == 1 and isinstance(s_.targets[0].value.slice, ast.Name)]
+        bname = "hrevolve_recurse"
+        cons = f"{rel[:-3].replace('/', '.')}.get_hopt_table#one-slot<->{bname}"
+        if len(one_o) == 1 and bname in g.builders and {"l", "K", "cmem"} <= set(params_of(bname)):
+            lvar = one_o[0].targets[0].value.slice.id
+            pbe = builder("get_hopt_table")
+            pbe = PolyBuilder(pbe.atom_fn, dict(pbe.rename, **{lvar: "l"}))
+            expect = pbe.poly(one_o[0].value)
+            cell = {"l": 7, "K": 0, "cmem": 1}
+            prods = [(c_, it_) for c_, it_ in production_paths(g, bname)
+                     if all(ev_test(node.test, cell) in (None, val) for node, val in c_)]
+            costs_ = []
+            for conds, items in prods:
+                pbb = builder("get_hopt_table")
+                pbb = PolyBuilder(pbb.atom_fn, dict(pbb.rename, K=0, k=0, cmem=1, m=1))
+                c_, why = production_cost(items, costs, pbb, True, funcs=live.funcs)
+                costs_.append(c_)
+            if len(prods) != 1 or costs_[0] is None:
+                chk.decide("C07.BASE", cons, None, f"{len(prods)} productions of {bname} on the cell {cell} / cost not computable",
+                           rel=rel, node=one_o[0])
+            else:
+                ok = pkey(costs_[0]) == pkey(expect)
+                chk.decide("C07.BASE", cons, True if ok else False,
+                           f"one-slot entries of opt at level 0 are `{' '.join(ast.unparse(one_o[0].value).split())}` = {pstr(expect)}; the "
+                           f"production of {bname} with K = 0, cmem = 1 costs {pstr(costs_[0])}", rel=rel, node=one_o[0])
